@@ -13,10 +13,10 @@ attribute [local irreducible] Goml.GoCompile.vn Goml.GoCompile.gid Goml.GoCompil
 
 theorem stepL {env : Env} {file : AFile} {G : List String} {P : Prog} {F : GFile} {n : Nat}
     (ha : SimA env file G P F n) (hL : SimL env file G P F n) : SimL env file G P F (n + 1) := by
-  intro cv st c b Γ K ρ w gρ gw Bad hfc hcb hfb hbu hrel hkrel hw hinv htgt hus hcal
+  intro cv st c b η Γ K ρ w gρ gw Bad hfc hcb hfb hbu hrel hkrel hw hinv htgt hus hcal
   obtain ⟨htk, htne⟩ := htgt
-  have hcalc : ∀ x, x ∈ calleesA c → vn x ∈ Bad := fun x hx => hcal x (List.mem_append_left _ hx)
-  have hcalb : ∀ x, x ∈ calleesA b → vn x ∈ Bad := fun x hx => hcal x (List.mem_append_right _ hx)
+  have hcalc : ∀ x, x ∈ calleesA c → x ∈ Bad := fun x hx => hcal x (List.mem_append_left _ hx)
+  have hcalb : ∀ x, x ∈ calleesA b → x ∈ Bad := fun x hx => hcal x (List.mem_append_right _ hx)
   -- the three parts of the loop body
   generalize hA : (compileA env (.assign cv) st c).1 = A at *
   generalize hst2 : (compileA env (.assign cv) st c).2 = st2 at *
@@ -27,19 +27,19 @@ theorem stepL {env : Env} {file : AFile} {G : List String} {P : Prog} {F : GFile
   generalize hB : (compileA env .effect st2 b).1 = B at *
   have hinvA : GInv Bad A gρ := hinv.left
   rw [Sem.eval]
-  have hAsim := ha (.assign cv) st c Γ K ρ w gρ gw Bad hfc hrel hkrel hw (hA ▸ hinvA) ⟨htk, htne⟩ hus hcalc
+  have hAsim := ha (.assign cv) st c η Γ K ρ w gρ gw Bad hfc hrel hkrel hw (hA ▸ hinvA) ⟨htk, htne⟩ hus hcalc
   rw [hA, hcb] at hAsim
   revert hAsim
   cases hres : Sem.eval n P ρ w c.toExpr with
   | fail fl w1 =>
     cases fl with
     | panic k =>
-      rintro ⟨gw1, hbA, h5⟩
-      exact ⟨gw1, stmt_loop_fail (nest_of_block (block_append_panic hbA)), h5⟩
+      rintro ⟨η1, hle1, gw1, hbA, h5⟩
+      exact ⟨η1, hle1, gw1, stmt_loop_fail (nest_of_block (block_append_panic hbA)), h5⟩
     | fuel => intro _; trivial
     | stuck s => intro _; trivial
   | ok vc w1 =>
-    rintro ⟨D1, gvc, gw1, hbA, h3, h4, h5, hD1⟩
+    rintro ⟨η1, hle1, D1, gvc, gw1, hbA, h3, h4, h5, hD1⟩
     obtain ⟨bb, rfl⟩ := hasTy_bool h4
     have := toG_bool h3; subst this
     simp only [post] at hbA
@@ -61,14 +61,14 @@ theorem stepL {env : Env} {file : AFile} {G : List String} {P : Prog} {F : GFile
       have hblk := block_append hbA (block_cons_sig (rest := B) (by simp) hI)
       have hn := nest_of_block hblk
       simp only [popTo, pop_append D1 _ gρ (length_update _ _ _)] at hn
-      exact ⟨by trivial, gw1, stmt_loop_brk hn, h5⟩
+      exact ⟨by trivial, η1, hle1, gw1, stmt_loop_brk hn, h5⟩
     | true =>
       simp only
       have hI : StmtS F (D1 ++ updateG gρ (gid cv) (.bool true)) gw1
           (.ite (.un .not .bool (.var (gid cv) .bool)) [.brk] none)
           (.ok (D1 ++ updateG gρ (gid cv) (.bool true), .normal) gw1) := stmt_ite_false_none hcond
       -- the loop body proper, in effect mode
-      have hrel1 : EnvRel env Γ ρ (D1 ++ updateG gρ (gid cv) (.bool true)) := hrel.go_agree (fun y ty hy => by
+      have hrel1 : EnvRel env η1 Γ ρ (D1 ++ updateG gρ (gid cv) (.bool true)) := (hrel.mono hle1).go_agree (fun y ty hy => by
         obtain ⟨_, _, _, h2, _, _⟩ := hrel.1 y ty hy
         rw [lookup_append_right (fun h => hD1disj _ h (key_of_lookup_some h2))]
         exact lookup_update_ne _ (fun e => htne y ty hy e.symm) _)
@@ -79,19 +79,19 @@ theorem stepL {env : Env} {file : AFile} {G : List String} {P : Prog} {F : GFile
         have h3 := GInv.right (a := [GStmt.ite (.un .not .bool (.var (gid cv) .bool)) [.brk] none]) (D := [])
           (U := D1 ++ updateG gρ (gid cv) (.bool true)) h2 rfl (fun y hy => by cases hy)
         simpa using h3
-      have hBsim := ha .effect st2 b Γ K ρ w1 (D1 ++ updateG gρ (gid cv) (.bool true)) gw1 Bad hfb hrel1 hkrel h5 (hB ▸ hinvB) hbu hus hcalb
+      have hBsim := ha .effect st2 b η1 Γ K ρ w1 (D1 ++ updateG gρ (gid cv) (.bool true)) gw1 Bad hfb hrel1 hkrel h5 (hB ▸ hinvB) hbu hus hcalb
       rw [hB] at hBsim
       revert hBsim
       cases hresb : Sem.eval n P ρ w1 b.toExpr with
       | fail fl w2 =>
         cases fl with
         | panic k =>
-          rintro ⟨gw2, hbB, g5⟩
-          exact ⟨gw2, stmt_loop_fail (nest_of_block (block_append hbA (block_cons hI hbB))), g5⟩
+          rintro ⟨η2, hle2, gw2, hbB, g5⟩
+          exact ⟨η2, Hp.le_trans hle1 hle2, gw2, stmt_loop_fail (nest_of_block (block_append hbA (block_cons hI hbB))), g5⟩
         | fuel => intro _; trivial
         | stuck s => intro _; trivial
       | ok vb w2 =>
-        rintro ⟨D2, gvb, gw2, hbB, _, _, g5, _⟩
+        rintro ⟨η2, hle2, D2, gvb, gw2, hbB, _, _, g5, _⟩
         simp only [post] at hbB
         dsimp only
         have hblk := block_append hbA (block_cons hI hbB)
@@ -99,24 +99,24 @@ theorem stepL {env : Env} {file : AFile} {G : List String} {P : Prog} {F : GFile
         rw [show D2 ++ (D1 ++ updateG gρ (gid cv) (GVal.bool true)) = (D2 ++ D1) ++ updateG gρ (gid cv) (GVal.bool true) by simp] at hn
         simp only [popTo, pop_append (D2 ++ D1) _ gρ (length_update _ _ _)] at hn
         -- next iteration
-        have hrel' : EnvRel env Γ ρ (updateG gρ (gid cv) (.bool true)) := hrel.go_agree (fun y ty hy =>
+        have hrel' : EnvRel env η2 Γ ρ (updateG gρ (gid cv) (.bool true)) := (hrel.mono (Hp.le_trans hle1 hle2)).go_agree (fun y ty hy =>
           lookup_update_ne _ (fun e => htne y ty hy e.symm) _)
         have hinv' : GInv Bad (A ++ (GStmt.ite (.un .not .bool (.var (gid cv) .bool)) [.brk] none :: B))
             (updateG gρ (gid cv) (.bool true)) := hinv.keys_eq (keys_update _ _ _)
-        have hnext := hL cv st c b Γ K ρ w2 (updateG gρ (gid cv) (.bool true)) gw2 Bad hfc hcb hfb hbu hrel' hkrel g5
+        have hnext := hL cv st c b η2 Γ K ρ w2 (updateG gρ (gid cv) (.bool true)) gw2 Bad hfc hcb hfb hbu hrel' hkrel g5
           (by rw [hbody]; exact hinv') ⟨by rw [keys_update]; exact htk, htne⟩ hus hcal
         rw [hbody] at hnext
         revert hnext
         cases hresw : Sem.eval n P ρ w2 (.while c.toExpr b.toExpr) with
         | ok v w3 =>
-          rintro ⟨rfl, gw3, hlp, g6⟩
+          rintro ⟨rfl, η3, hle3, gw3, hlp, g6⟩
           rw [update_update] at hlp
-          exact ⟨rfl, gw3, stmt_loop_next hn hlp, g6⟩
+          exact ⟨rfl, η3, Hp.le_trans (Hp.le_trans hle1 hle2) hle3, gw3, stmt_loop_next hn hlp, g6⟩
         | fail fl w3 =>
           cases fl with
           | panic k =>
-            rintro ⟨gw3, hlp, g6⟩
-            exact ⟨gw3, stmt_loop_next hn hlp, g6⟩
+            rintro ⟨η3, hle3, gw3, hlp, g6⟩
+            exact ⟨η3, Hp.le_trans (Hp.le_trans hle1 hle2) hle3, gw3, stmt_loop_next hn hlp, g6⟩
           | fuel => intro _; trivial
           | stuck s => intro _; trivial
 
